@@ -1446,6 +1446,7 @@ fn crowd(st: &mut SeqStats, fl: Flavour, mode: usize, k: usize) {
         "stream-task-parked-then-many-polls-of-another-task-then-send",
         "sink-task-parked-then-many-refused-sends-of-another-task-then-receive",
         "sinks-parked-then-last-receiver-unsubscribed",
+        "sinks-parked-then-last-receiver-dropped-inside-the-task-of-the-first-sink",
     ];
     if fl == Flavour::M && matches!(mode, 0 | 2 | 6 | 7 | 8) {
         return; // one stream only
@@ -1657,11 +1658,12 @@ fn crowd(st: &mut SeqStats, fl: Flavour, mode: usize, k: usize) {
                 }
             }
             let _ = rt::take_seq_notifies();
-            let last_leaves = mode == 4 || mode == 10;
+            let last_leaves = mode == 4 || mode == 10 || mode == 11;
             let ev = match mode {
                 3 => op(TryRecv, 1),
                 4 => op(DropH, 1),
                 10 => opv(Unsub, 1, 1),
+                11 => opd(DropInTask, 1, extra[0]),
                 _ => op(PollS, 1),
             };
             let r = run(if ev.k == Unsub { op(Unsub, 1) } else { ev });
@@ -1685,7 +1687,7 @@ fn crowd(st: &mut SeqStats, fl: Flavour, mode: usize, k: usize) {
                 let v = 20 + i as u32;
                 let r = run(opv(StartSend, h, v));
                 let ok = match mode {
-                    4 | 10 => r == Some(Res::SinkErr(v)),
+                    4 | 10 | 11 => r == Some(Res::SinkErr(v)),
                     _ => (i == 0 && r == Some(Res::Ready)) || (i > 0 && r == Some(Res::NotReadyMsg(v))),
                 };
                 if !ok {
@@ -2049,7 +2051,7 @@ pub fn main(prop: &str, tier: Tier, si: usize, sk: usize) {
     if matches!(prop, "C14" | "C07" | "C13" | "C15" | "C11") {
         let mut j = 0;
         for fl in [Flavour::B, Flavour::M] {
-            for mode in 0..11 {
+            for mode in 0..12 {
                 for k in 1..=12usize {
                     j += 1;
                     if j % sk != si {
